@@ -349,7 +349,7 @@ pub fn check_fragment(sh: &Shared, c: &FragCase) -> Check {
 }
 
 pub fn strategy_fragment() -> BoxedStrategy<FragCase> {
-    gen::fmt_and(|fi| (gen::task_with(gen::term(gen::TermOpts { depth: 2, size: 8, ..gen::TermOpts::main(fi) })), 0u8..32).boxed())
+    gen::fmt_and(|fi| (gen::task_with(gen::term(gen::TermOpts { depth: 2, size: 8, deep: false, ..gen::TermOpts::main(fi) })), 0u8..32).boxed())
         .prop_map(|(fi, (t, mask))| FragCase { fi, t, mask })
         .boxed()
 }
